@@ -172,6 +172,9 @@ class Job:
 
     def result(self):
         self.stats["solver_s"] = round(self.stats["solver_s"], 3)
+        X = Ctx.XCHECK
+        self.stats.update(cvc5_rechecked_unsat=X["unsat"], cvc5_unknown=X["unknown"], cvc5_disagree=X["disagree"],
+                          cvc5_s=round(X["secs"], 2))
         return dict(job=self.name, obligations=self.obligations, candidates=self.candidates, samples=self.samples,
                     stats=self.stats, notes=self.notes, bounds=self.bounds, assumptions=sorted(self.assumptions),
                     functions=sorted(loader.ENTERED))
@@ -197,9 +200,15 @@ def _run_job(spec):
     except EngineUnsupported as e:
         J.notes.append("EngineUnsupported outside a path: %s" % e)
         J.obligations.append(dict(name="harness ran", verdict="unknown", secs=0.0))
+        fb = getattr(J, "default_fallback", None)
+        if fb:
+            J.candidates.append(dict(oracle=fb[0], args=enc(fb[1]), why="harness ran"))
     except Exception as e:
         J.notes.append("harness error: " + traceback.format_exc()[-1500:])
         J.obligations.append(dict(name="harness ran", verdict="error", secs=0.0))
+        fb = getattr(J, "default_fallback", None)
+        if fb:
+            J.candidates.append(dict(oracle=fb[0], args=enc(fb[1]), why="harness ran"))
     try:
         signal.setitimer(signal.ITIMER_REAL, 0)
     except Exception:
@@ -281,7 +290,7 @@ def run_oracle(check_mod, oracle, args, timeout=600):
     """execute a concrete oracle of the check module against the plain spake2 package in a fresh interpreter"""
     payload = json.dumps(dict(module=check_mod, oracle=oracle, args=args))
     p = subprocess.run([PY, "-m", "symx.replay"], input=payload, capture_output=True, text=True, cwd=VERIF,
-                       timeout=timeout, env=dict(os.environ, PYTHONPATH=VERIF))
+                       timeout=timeout, env=dict(os.environ, PYTHONPATH=VERIF + os.pathsep + os.path.join(loader.TREE, "src")))
     try:
         return json.loads(p.stdout.strip().splitlines()[-1])
     except Exception:
@@ -359,7 +368,8 @@ def main(check_module, argv=None):
             unreproduced.append(c)
 
     os.makedirs(os.path.join(VERIF, "replays"), exist_ok=True)
-    os.makedirs(os.path.join(VERIF, "evidence"), exist_ok=True)
+    evdir = os.environ.get("VERIF_EVIDENCE_DIR") or os.path.join(VERIF, "evidence")
+    os.makedirs(evdir, exist_ok=True)
     printed = set()
     for hit, c in known_hits:
         if hit["id"] not in printed:
@@ -377,6 +387,8 @@ def main(check_module, argv=None):
 
     # an undischarged obligation whose candidate did not reproduce (or has none) is inconclusive
     unexplained = [o for o in failed if (o["job"], o["name"]) not in explained_keys]
+    # an undecided obligation whose candidate reproduced (a violation, or a listed known finding) is accounted for
+    undecided = [o for o in undecided if (o["job"], o["name"]) not in explained_keys]
     if len(violations) >= 8:
         unexplained = []
     inconclusive = bool(undecided) or bool(unexplained)
@@ -407,6 +419,8 @@ def main(check_module, argv=None):
             paths=int(stats.get("paths", 0)), reachable_paths=int(stats.get("reachable_paths", 0)),
             truncated_paths=int(stats.get("truncated", 0)), infeasible_prefixes=int(stats.get("infeasible", 0)),
             queries=int(stats.get("queries", 0)), solver_s=stats.get("solver_s", 0.0),
+            cvc5_crosscheck=dict(rechecked_unsat=int(stats.get("cvc5_rechecked_unsat", 0)), unknown=int(stats.get("cvc5_unknown", 0)),
+                                 disagree=int(stats.get("cvc5_disagree", 0)), secs=stats.get("cvc5_s", 0.0)),
             functions_encoded=functions, bounds=bounds,
             jobs=[dict(job=r["job"], wall_s=r["wall_s"], obligations=len(r["obligations"]),
                        discharged=sum(1 for o in r["obligations"] if o["verdict"] == "unsat")) for r in results],
@@ -422,7 +436,7 @@ def main(check_module, argv=None):
         violations=len(violations),
         status={0: "held", 1: "violation", 2: "inconclusive"}[status],
     )
-    json.dump(ev, open(os.path.join(VERIF, "evidence", "%s.json" % pid), "w"), indent=1)
+    json.dump(ev, open(os.path.join(evdir, "%s.json" % pid), "w"), indent=1)
     print("%s %s: %d/%d obligations discharged, %d paths, %d queries, solver %.1fs, wall %.1fs -> %s" % (
         pid, tier, n_ok, n_ob, stats.get("paths", 0), stats.get("queries", 0), stats.get("solver_s", 0.0),
         time.time() - t0, ev["status"]))
